@@ -34,7 +34,7 @@ def idArgs (a : Json) : ComposeIdArgs :=
     date := getStr? a "date", ctype := getStr? a "type", respin := getInt? a "respin" }
 
 def jdtr : Option (Option Str × Str × Nat) → Json
-  | none => Json.null
+  | none => Json.arr #[Json.null, Json.null, Json.null]
   | some (d, t, r) => Json.arr #[jopt jstr d, jstr t, jnat r]
 
 /-- parse, canonical re-formatting of the parts, parse again -/
@@ -55,6 +55,7 @@ def opIdRoundtrip (a : Json) : Json :=
 def ops : List (String × (Json → Json)) :=
   [("nvra_roundtrip", opNvraRoundtrip),
    ("compose_id_roundtrip", opIdRoundtrip),
+   ("py_int_digits", fun a => exceptJson jnat (pyIntDigits (getStrD a "s"))),
    ("parse_nvra", fun a => exceptJson jnvra (parseNvra (getStrD a "s"))),
    ("parse_nvra_enum", opNvraEnum),
    ("canon_nvra", fun a => jstr (canonNvra
